@@ -1370,6 +1370,20 @@ impl StyleCase {
                 // … and the other half writes the text of every number's <v> in pieces (comment / PI / CDATA in between):
                 // the serial value must come through unchanged
                 layout.v_split_cdata = true;
+                // round 5: foreign-namespace twins of the cell attributes (ext:s / ext:t / ext:r, xmlns:s on the <c>),
+                // custom format ids spelled with leading zeros (the same spelling in <numFmt> and <xf>)
+                if self.seed % 5 < 2 {
+                    layout.pct_c_foreign_attr = 100;
+                }
+                if self.seed % 7 < 3 {
+                    layout.pct_id_zero_pad = 100;
+                }
+                // … and the 1904 flag spelled with character references (`date1904="&#49;"`, `"tru&#101;"`)
+                if self.date1904 && self.seed % 4 == 1 {
+                    book.date1904 = None;
+                    let sp = ["&#49;", "tru&#101;", "&#x31;", "t&#114;ue"][(self.seed / 4 % 4) as usize];
+                    book.workbook_extra = format!("<workbookPr date1904=\"{sp}\"/>");
+                }
                 if self.seed % 2 == 1 {
                     layout.pct_v_split = 100;
                 }
@@ -2590,6 +2604,16 @@ fn main() {
             out.cases.push((c.wire(), true));
             out.count("corpus");
         }
+    }
+    //   round 5: m18 — `ext:s` / `xmlns:s` on a <c> are not its style (seeds % 5 < 2); m17 — `numFmtId="0164"` in <numFmt>
+    //   and <xf> alike is format 164 (seeds % 7 < 3); m19 — `date1904="&#49;"` is the 1904 system (seed % 4 == 1)
+    for seed in [5u64, 15, 21, 35, 70, 1, 57, 85] {
+        let da = Fmt { sections: vec![vec![Tok::DateTok("yyyy".into()), Tok::Num('-'), Tok::DateTok("mm".into())]] };
+        let el = Fmt { sections: vec![vec![Tok::Elapsed("mm".into()), Tok::Num(':'), Tok::DateTok("ss".into())]] };
+        let c = StyleCase { kind: "xlsx", defs: vec![(164, da.clone()), (165, el), (170, da)], xfs: vec![0, 164, 165, 170, 14, 2, 164], date1904: true, seed };
+        check_file(&c, &mut drv, &mut out, false);
+        out.cases.push((c.wire(), true));
+        out.count("corpus");
     }
     for seed in [6u64, 12, 18, 24, 30, 36] {
         let c = StyleCase { kind: "xlsx", defs: vec![], xfs: vec![0, 14, 46, 2, 22, 21], date1904: seed % 4 == 0, seed };
